@@ -197,6 +197,79 @@ func vsNewTx(conc vsConc, parent []string, tag string) *vsTx {
 	return &vsTx{commit: &vsCommit{path: path}, patch: p}
 }
 
+// vsWriteThroughView makes the writes of a tag through a view opened at the parent, checks that the view (and only it)
+// sees them, and returns the change set the view reports - the patch a commit is made from in the real node.
+func (t *vsTarget) vsWriteThroughView(conc vsConc, parent []string, tag string) (db.Patch, bool) {
+	v := t.m.Get(t.id(parent))
+	if v == nil {
+		return nil, false
+	}
+	type w struct {
+		k   []byte
+		val []byte
+		del bool
+	}
+	var ws []w
+	pa := vsPatches[tag]
+	for _, k := range []string{"k1", "k2"} {
+		val, ok := pa[k]
+		if !ok {
+			continue
+		}
+		keys := [][]byte{conc.Keys[k]}
+		for i := 1; i < conc.Width; i++ {
+			keys = append(keys, append(append([]byte{}, conc.Keys[k]...), []byte(fmt.Sprintf("#%04d", i))...))
+		}
+		for _, key := range keys {
+			if val == "NONE" {
+				ws = append(ws, w{k: key, del: true})
+			} else {
+				ws = append(ws, w{k: key, val: vsVal(val)})
+			}
+		}
+	}
+	// what a sibling sees before and must still see afterwards
+	before := map[string][2]interface{}{}
+	sib := t.m.Get(t.id(parent))
+	for _, x := range ws {
+		g, _ := sib.Get(x.k)
+		h, _ := sib.Has(x.k)
+		before[string(x.k)] = [2]interface{}{string(g), h}
+	}
+	for _, x := range ws {
+		var err error
+		if x.del {
+			err = v.Delete(x.k)
+		} else {
+			err = v.Put(x.k, x.val)
+		}
+		if err != nil {
+			t.extra = append(t.extra, vsMismatch{"view-write-error", fmt.Sprintf("write through a view at %v failed: %v", parent, err)})
+		}
+	}
+	for _, x := range ws {
+		g, _ := v.Get(x.k)
+		h, _ := v.Has(x.k)
+		if x.del && (h || len(g) != 0) {
+			t.extra = append(t.extra, vsMismatch{"view-own-write-invisible", fmt.Sprintf("a key deleted through a view at %v is still there in that view (Has=%v, Get=%x)", parent, h, g)})
+		}
+		if !x.del && (!h || string(g) != string(x.val)) {
+			t.extra = append(t.extra, vsMismatch{"view-own-write-invisible", fmt.Sprintf("a value written through a view at %v is not what the view returns (Has=%v, Get=%x, written %x)", parent, h, g, x.val)})
+		}
+		sg, _ := sib.Get(x.k)
+		sh, _ := sib.Has(x.k)
+		if b := before[string(x.k)]; b[0].(string) != string(sg) || b[1].(bool) != sh {
+			t.extra = append(t.extra, vsMismatch{"view-write-leaks", fmt.Sprintf("a write through one view at %v is visible in another view of the same commit", parent)})
+		}
+	}
+	p, err := v.Changes()
+	if err != nil {
+		t.extra = append(t.extra, vsMismatch{"view-changes-error", fmt.Sprintf("Changes() of a view at %v: %v", parent, err)})
+		return nil, false
+	}
+	return p, true
+}
+
 func isBookkeeping(k []byte) bool {
 	if len(k) == 1 && k[0] == 0 {
 		return true
@@ -506,6 +579,8 @@ type vsTarget struct {
 	m     db.Manager
 	views []db.DB
 	vhist []bool // view i is a historical view (opened below the frontier)
+	via   bool   // commits are made from the change set of a view that the writes went through
+	extra []vsMismatch
 }
 
 func (t *vsTarget) open() {
@@ -552,7 +627,14 @@ func (t *vsTarget) exec(conc vsConc, s vsStep) (string, error) {
 				return "frontier-moved", nil
 			}
 		} else {
-			err = t.m.Add(vsNewTx(conc, s.Parent, s.Tag))
+			tx := vsNewTx(conc, s.Parent, s.Tag)
+			if t.via {
+				// the patch comes from a view's change set, as in the node, instead of being built directly
+				if p, ok := t.vsWriteThroughView(conc, s.Parent, s.Tag); ok {
+					tx.patch = p
+				}
+			}
+			err = t.m.Add(tx)
 		}
 		after := db.GetFrontierIdentifier(t.m.Frontier())
 		if err != nil {
@@ -637,8 +719,9 @@ func vsReplayT(kind string, tall int, conc vsConc, b *vsBehaviour, scratch strin
 		return out, e
 	}
 	defer os.RemoveAll(dir)
-	t := &vsTarget{kind: kind, dir: dir, tall: tall}
+	t := &vsTarget{kind: kind, dir: dir, tall: tall, via: tall == 0 && len(b.Steps)%2 == 0}
 	t.open()
+	defer func() { out.Mismatches = append(out.Mismatches, t.extra...) }()
 	stopped := false
 	defer func() {
 		if !stopped && t.m != nil {
